@@ -591,6 +591,29 @@ pub fn c04(a: &Args) {
             }
         }
     }
+    // (5) the last byte the writer emits is a byte the container gives a meaning to (0x1A = DOS end of file, in front of a SAUCE
+    //     record): pictures whose LAST cell is that glyph - alone, after other cells, ending a run of itself - with and without
+    //     SAUCE, in every ice mode
+    {
+        let mut r = rng(seed, 45_000);
+        for mark in [0x1Au32, 0xFF, 0x00] {
+            for shape in 0..3 {
+                for sauce in [true, false] {
+                    for ice in 0..3u64 {
+                        let mut o = AnsOpts::random(&mut r);
+                        o.sauce = sauce;
+                        if shape == 2 { o.rep = false; }
+                        let cell = |c: u32, fg: u32| Cell { ch: c, fg, bg: 0, flags: 0 };
+                        let last_row: Vec<Cell> = match shape { 0 => vec![cell(mark, 12)], 1 => vec![cell(65, 7), cell(66, 7), cell(mark, 12)], _ => vec![cell(65, 7), cell(mark, 12), cell(mark, 12), cell(mark, 12)] };
+                        let rows = vec![vec![cell(67, 7), cell(mark, 9), cell(68, 7)], last_row];
+                        let p = Pic { w: 80, h: 2, ice: ice_of(ice), rows, extra_colors: vec![] };
+                        id += 1;
+                        run_c04(&mut outs[(id as usize) % shards], 4_000_000 + id, "end-marker", &p, &o);
+                    }
+                }
+            }
+        }
+    }
     let mut total = 0;
     for o in &mut outs {
         o.flush();
